@@ -20,9 +20,9 @@ import (
 // codec binds a type name of spec/Rlp.tla (Schema) to the real Go type.
 type codec struct {
 	name  string
-	fresh func() interface{}     // decode target, built the way the production decode site builds it
+	fresh func() interface{}       // decode target, built the way the production decode site builds it
 	gen   func(g *gen) interface{} // a real value of the type (pointer, same type as fresh), nil when there is none
-	nre   int                    // how often an accepted value is re-encoded (128 for the map-backed type: Go starts a map
+	nre   int                      // how often an accepted value is re-encoded (128 for the map-backed type: Go starts a map
 	// iteration at a random slot, two entries swap with probability 1/8 per iteration)
 }
 
